@@ -81,6 +81,28 @@ CHECKS = {
              'checked on the real objects.',
         note='Antennas noiseless (Monte-Carlo truth equals hit); operands of + disjoint; keyword sets that the code '
              'documents as TypeError (identical subsets, keyword nobody accepts) are excluded.'),
+    'C02': dict(
+        spec='RaySymmetry.tla', design='4.11',
+        text='RaySymmetry.tla generates the orbits of lattice endpoint pairs under swap, horizontal shifts and quarter turns and '
+             'keeps, separately from the endpoints, the bookkeeping (swapped, turns) that predicts how the solution set must '
+             'transform; TLC checks Consistent and StratifiedInvariants exhaustively to depth 5. The orbits are evaluated on '
+             'SpecializedRayTracer (Antarctic, Arasim, Greenland ice), UniformRayTracer (2 reflections), LayeredRayTracer and '
+             'BasicRayTracer: at every state lengths, times of flight, attenuations and directions must be the predicted image '
+             'of the base solutions, exists <=> solutions non-empty, gradient tracers report 0 or 2 solutions.',
+        note='The model fixes only the algebra; the substance is the replay. Tolerances 1e-6 (root search), 1e-4 (numerical '
+             'tracer), attenuation of uniform/layered paths 5e-3 (one-sided Riemann sum). Arbitrary rotation angles and '
+             'grazing geometries not covered. Open known finding D13 (Greenland deep endpoints).'),
+    'C18': dict(
+        spec='UniformImage.tla + LayeredPaths.tla', design='4.11',
+        text='UniformImage.tla walks a ray through a uniform slab boundary by boundary and checks that the walked vertical '
+             'travel equals both the formula used by the code and the image-method mirror construction (1662 Pythagorean '
+             'cases, 0..3 reflections); LayeredPaths.tla walks rays with a rational Snell invariant through stacks of uniform '
+             'layers (transmission, reflection, arrival). Every behaviour is an exact ray: UniformRayTracer / LayeredRayTracer '
+             'are run on it under lattice azimuths, offsets, refractive indices and boundary-index settings; length, tof = nL/c, '
+             'directions, reflection points, solution counts and leg chains are compared, every returned layered solution is '
+             'checked to be a continuous Snell chain, and split media are compared with the unsplit tracers.',
+        note='Exactness by construction (Pythagorean / rational lattices). Exponential layers only through split equivalence of '
+             'amplitude-carrying solutions (tolerance 1e-4). Open known finding D23 (endpoint exactly on the reflecting boundary).'),
 }
 
 NOT_APPLICABLE = {
